@@ -46,7 +46,8 @@ fn range_points(op: Op, prec: i32) -> Vec<f64> {
                 g.extend([400.0]);
             }
         }
-        Sin | Cos | SinCosS | SinCosC | Tan => g.extend([100.0, -1000.0]),
+        // large arguments, and arguments next to the zeros of sin and cos (relative accuracy there)
+        Sin | Cos | SinCosS | SinCosC | Tan => g.extend([100.0, -1000.0, 1.5707, -4.7123, 3.1415, -6.2831]),
         Atan | Asinh | Cbrt => g.extend([1048576.0, -1048576.0]),
         Recip => g.extend([1048576.0, -1048576.0]),
         Sqrt | Ln | Log(_) | Log2 | Log10 => g.extend([1048576.0, 1.2345678e-6]),
